@@ -327,8 +327,8 @@ def shapes(tier, seed):
     for mp, utd in (("scbk", True),) + ((("jw", False), ("scbk", False), ("bk", True), ("bk", False), ("jw", True)) if tier == "thorough" else ()):
         tm = "skip" if mp == "scbk" else ("state" if mp == "bk" else "ne")
         out.append(Shape(f"vqe_rdm/sym3-triplet/{mp}/utd={int(utd)}", h_vqe_rdm,
-                         dict(opts=dict(molecule_key="SYM3T", qubit_mapping=mp, up_then_down=utd, ansatz=BuiltInAnsatze.UCCSD), patt=None, sum_spin=True,
-                              trace_mode=tm), modules=MODS, max_paths=32))
+                         dict(opts=dict(molecule_key="SYM3T", qubit_mapping=mp, up_then_down=utd, ansatz=BuiltInAnsatze.UCCSD),
+                              patt=(None if tier == "thorough" else "sp"), sum_spin=True, trace_mode=tm), modules=MODS, max_paths=32))
     out.append(Shape("vqe_rdm/sym2/jw/refstate-override", h_vqe_rdm,
                      dict(opts=dict(molecule_key="SYM2", qubit_mapping="jw", up_then_down=False, ansatz=BuiltInAnsatze.UCCSD, ref_state=[1, 0, 0, 1]),
                           patt="ss", sum_spin=True), modules=MODS, max_paths=32))
